@@ -17,6 +17,7 @@
 #   along with this program.  If not, see <https://www.gnu.org/licenses/>.
 #
 
+from yalafi import tex2txt
 import re
 
 #   create error messages for single letters
